@@ -47,7 +47,7 @@ class CheckC16(core.Check):
 
     def plan(self):
         rnd = random.Random(self.seed * 236887691 + 16)
-        n = 160 if self.tier == "quick" else 2500
+        n = 480 if self.tier == "quick" else 8000
         return [(rnd.choice(CIPHERS), rnd.choice(["D", "R", "DR"]), rnd.choice(["NN", "XX", "N", "IKpsk2"]), rnd.getrandbits(32)) for _ in range(n)]
 
     def build(self, desc, small=False, threads=None, rec_twin="c"):
